@@ -84,12 +84,24 @@ def select_select(I, args, kw):
     return _SeqV("tuple", None, items=out)
 
 
+def new_socket(I, args, kw):
+    """socket.socket(...): a fresh stand-in object (spec.ext.AbsSocket) - open, nothing sent; its methods are known by
+    their assumed POSIX contracts only (a unit that calls one without naming a contract for it is out of reach)."""
+    from spec.ext import AbsSocket
+    from .values import ObjCell
+    ref = I.path.alloc(ObjCell(AbsSocket))
+    I.set_attr(ref, "g_closed", False)
+    I.set_attr(ref, "wire", b"")
+    return ref
+
+
 def build():
     C = threading.Condition
     E = threading.Event
     import select as _select
+    import socket as _socket
     m = {
-        _select.select: select_select,
+        _select.select: select_select, _socket.socket: new_socket,
         C.wait_for: cond_wait_for, C.wait: cond_wait, C.notify: noop, C.notify_all: noop,
         E.wait: ev_wait, E.set: ev_set, E.clear: ev_clear, E.is_set: ev_is_set,
     }
